@@ -1,4 +1,5 @@
 import FsnVerif.Proofs.KqLemmas
+import FsnVerif.Proofs.KqFullInv
 /-!
 # C17 — kqueue: watch descriptors are always closed again; only user paths are listed (model side)
 
@@ -113,4 +114,100 @@ theorem invReport_ok_iff (s : KState) (links : List Path) : s.invReport links = 
     simp only [this]
     split <;> simp
 
+
+
+/-!
+## The same statements over the FULL model of the backend (`Model/KqFull`)
+
+`Model/KqFull` mirrors the control flow of `backend_kqueue.go` function by function; what the code
+asks its environment (`os.Lstat`, `os.Readlink`, `os.ReadDir`, `unix.Open`, the batches `kevent`
+returns) is a tape of answers, and the theorems below hold for **every** tape. Tie: the real backend
+runs under the simulated kqueue with a recording stand-in for package `os`; every step's tape is fed
+to the compiled model and return class, event and error sequence, all five tables, the descriptors
+really open, the knotes and `WatchList` are compared (`kqf` lines of the kq stage).
+-/
+namespace Full
+open KqF
+
+inductive Op
+  | add (p : Path)
+  | remove (p : Path)
+  | events            -- the reader works off the kevent batches on the tape
+  | close
+
+def run (op : Op) (w : W) : W :=
+  match op with
+  | .add p => (KqF.add p w).2
+  | .remove p => (KqF.remove p true w).2
+  | .events => (KqF.reader 64 w).2
+  | .close => (KqF.close w).2
+
+/-- the states reachable by any sequence of API calls and reader activity, whatever the environment
+answers (`tape` is arbitrary at every step) -/
+inductive Reachable : KS → Prop
+  | init : Reachable {}
+  | step (s : KS) (op : Op) (tape : List Ans) : Reachable s → Reachable (run op { s := s, tape := tape }).s
+
+theorem reachable_inv {s : KS} (h : Reachable s) : Inv s := by
+  induction h with
+  | init => exact inv_init
+  | step s op tape _ ih =>
+    cases op with
+    | add p => exact add_ok p _ ih
+    | remove p => exact remove_ok p true _ ih
+    | events => exact reader_ok 64 _ ih
+    | close => exact close_ok _ ih
+
+/-- **every descriptor the Watcher opened and has not closed belongs to a table entry, and every
+table entry's descriptor is open** — in every reachable state, for every environment -/
+theorem full_fds_are_table {s : KS} (h : Reachable s) (fd : Nat) : fd ∈ s.openFds ↔ alHas fd s.wd = true := by
+  have := (reachable_inv h).open_iff fd
+  simpa using this
+
+/-- every entry is listed in the path table under its own, clean name and with its own descriptor;
+every entry has a knote and knotes exist only on open descriptors -/
+theorem full_entries_listed {s : KS} (h : Reachable s) (k : Nat) (w : KqF.KW) (hk : alLookup k s.wd = some w) :
+    w.wd = k ∧ alLookup w.name s.path = some k ∧ clean w.name = w.name ∧ alHas k s.knotes = true :=
+  let i := reachable_inv h
+  ⟨i.key_wd k w hk, i.listed k w hk, i.keys_clean k w hk, i.has_knote k ((alHas_iff _ _).mpr ⟨w, hk⟩)⟩
+
+/-- **`Close` releases everything**: after any history, `Close` leaves no descriptor open, no table
+entry and no knote (findings F4 and F15 repaired: before F15's repair a link target that is not in
+clean form was a counterexample — `keys_clean` could not be proved) -/
+theorem full_close_releases_all {s : KS} (h : Reachable s) (hc : s.closed = false) (tape : List Ans) :
+    (run .close { s := s, tape := tape }).s.openFds = [] ∧ (run .close { s := s, tape := tape }).s.wd = [] ∧
+      (run .close { s := s, tape := tape }).s.knotes = [] :=
+  close_releases _ (reachable_inv h) hc
+
+/-- **`Remove` of a watched path closes that path's descriptor and drops its entry** (and, for a
+directory, whatever else it removes, it never adds an entry): afterwards the descriptor is not open,
+no entry carries it, no entry is listed under the removed name -/
+theorem full_remove_releases {s : KS} (h : Reachable s) (hc : s.closed = false) (name : Path) (info : KqF.KW)
+    (hi : alLookup ((alLookup (clean name) s.path).getD 0) s.wd = some info) (tape : List Ans) :
+    info.wd ∉ (run (.remove name) { s := s, tape := tape }).s.openFds ∧
+    AllEnt (fun k w => k ≠ info.wd ∧ w.name ≠ clean name) (run (.remove name) { s := s, tape := tape }).s := by
+  have hinv := reachable_inv h
+  have e : run (.remove name) { s := s, tape := tape } = (rm (5 + 1) name true { s := s, tape := tape }).2 := by
+    simp only [run, KqF.remove, bind_apply, KqF.get, hc]
+    rfl
+  rw [e]
+  obtain ⟨h1, h2⟩ := rm_found 5 name true { s := s, tape := tape } hinv info hi
+  refine ⟨?_, h2⟩
+  intro hopen
+  have := (h1.open_iff _).mp hopen
+  simp only [reduceCtorEq, or_false] at this
+  obtain ⟨e', he'⟩ := (alHas_iff _ _).mp this
+  exact (h2 _ _ he').1 rfl
+
+/-- non-vacuity: a directory with one file is added (two descriptors), then the Watcher is closed -/
+def tapeAdd : List Ans :=
+  [.lstat [47, 100] (.ok .dir), .opn [47, 100] (.ok 5), .readdir [47, 100] (.ok [([97], .ok .file)]),
+   .lstat [47, 100, 47, 97] (.ok .file), .opn [47, 100, 47, 97] (.ok 6)]
+
+def afterAdd : W := run (.add [47, 100]) { tape := tapeAdd }
+
+example : afterAdd.s.openFds = [6, 5] ∧ afterAdd.bad = none ∧ afterAdd.tape.length = 0 ∧ afterAdd.s.byUser = [[47, 100]] ∧
+    (run .close { s := afterAdd.s }).s.openFds = [] := by decide
+
+end Full
 end C17
